@@ -20,6 +20,14 @@ Fail closed (ExtractError => the check reports a broken tie):
     transcribed mutual recursions (`cycles`), or such a cycle is entered through a call expression
     that is not transcribed.
 
+  * any `fn next` / `fn next_back` of ANY source file of the workspace crates in `SCAN_CRATES` calls
+    itself (`self.next()`, `Iterator::next(self)`, `<Self as Iterator>::next(self)`, `Self::next(self)`,
+    `(*self).next()`, `self.by_ref().next()`) and is not one of the classified sites: the property's
+    first mechanism (an iterator that skips an element by calling itself), wherever it is written.
+
+Also generated: `prettyBnodeNestingCap` - the constant that caps the nesting of `[ ... ]` blank node
+property lists in the prettifier (`none` while _pretty.rs has no such cap).
+
 `ExtractError`, `read`, `HEADER` are injected by tools/extract.py.
 """
 import re
@@ -179,6 +187,47 @@ def _calls(s, fn, names):
         expr = re.sub(r"\s+\.(?=\w)", ".", expr)
         expr = re.sub(r"\s*,\s*\)", ")", expr).replace("( ", "(").replace(" )", ")")
         res.append((name, expr, fn["start"] + m.start()))
+    res += _receiver_self_calls(body, fn, names)
+    return res
+
+
+# calls whose receiver is `self` without the text `self.f(`:
+#   Iterator::next(self) / Self::next(self) / <Self as Iterator>::next(&mut *self) / Owner::f(self, ..)
+#   (*self).f(..) / (&mut *self).f(..) / self.by_ref().f(..)
+_UFCS_RE = re.compile(
+    r"(?<![\w:])(<[^<>;{}]*>|Self|Iterator|DoubleEndedIterator|[A-Z]\w*)\s*::\s*(\w+)\s*\(\s*"
+    r"(?:&\s*(?:mut\s+)?)?(?:\*\s*)?self\s*(?=[,)])")
+_DEREF_RE = re.compile(r"\(\s*(?:&\s*(?:mut\s+)?)?\*\s*self\s*\)\s*\.\s*(\w+)\s*\(")
+_BYREF_RE = re.compile(r"\bself\s*\.\s*by_ref\s*\(\s*\)\s*\.\s*(\w+)\s*\(")
+
+
+def _receiver_self_calls(body, fn, names):
+    res = []
+    owner = fn.get("owner")
+    for m in _UFCS_RE.finditer(body):
+        qual, name = m.group(1), m.group(2)
+        if name not in names:
+            continue
+        # `Term::f(` is already counted by the main pattern; other type names only if it is the owner
+        if qual == "Term":
+            continue
+        if not (qual.startswith("<") or qual in ("Self", "Iterator", "DoubleEndedIterator") or qual == owner):
+            continue
+        par = body.index("(", m.start(2))
+        close = _match_close(body, par, "(", ")", "call")
+        expr = re.sub(r"\s+", " ", body[m.start():close + 1]).strip()
+        res.append((name, expr, fn["start"] + m.start()))
+    # `(*self).f()` in `impl Trait for &T` is a delegation to T, not a self call: these two forms are
+    # only read in iterator methods, where `self` is `&mut Self`
+    for rx in ((_DEREF_RE, _BYREF_RE) if fn["name"] in ("next", "next_back") else ()):
+        for m in rx.finditer(body):
+            name = m.group(1)
+            if name not in names:
+                continue
+            par = body.index("(", m.start(1))
+            close = _match_close(body, par, "(", ")", "call")
+            expr = re.sub(r"\s+", " ", body[m.start():close + 1]).strip()
+            res.append((name, expr, fn["start"] + m.start()))
     return res
 
 
@@ -293,10 +342,57 @@ def _sccs(nodes, edges):
     return out
 
 
+# crates whose every `fn next` is scanned for a self call
+SCAN_CRATES = ["api", "c14n", "inmem", "isomorphism", "jsonld", "resource", "rio", "sparql", "term", "turtle", "xml"]
+SCAN_FNS = ("next", "next_back")
+
+
+def _scan_iterators(repo, skip):
+    """fail closed on an unclassified self-recursive `fn next` anywhere in the workspace crates"""
+    import glob
+    import os
+    scanned = 0
+    for crate in SCAN_CRATES:
+        for path in sorted(glob.glob(os.path.join(repo, crate, "src", "**", "*.rs"), recursive=True)):
+            rel = os.path.relpath(path, repo)
+            if rel in skip:
+                continue
+            text = read(repo, rel)  # noqa: F821
+            if not re.search(r"\bfn\s+(?:next|next_back)\b", text):
+                continue
+            s, fns = _functions(rel, text)
+            for f in fns:
+                if f["name"] not in SCAN_FNS:
+                    continue
+                scanned += 1
+                inner = [g for g in fns if g is not f and f["start"] < g["start"] and g["end"] < f["end"]]
+                for callee, expr, pos in _calls(s, f, {f["name"]}):
+                    if any(g["start"] <= pos <= g["end"] for g in inner):
+                        continue
+                    raise ExtractError(  # noqa: F821
+                        "%s: iterator method %s%s calls itself (%s): one stack frame per element skipped" % (
+                            rel, (f["owner"] + "::") if f["owner"] else "", f["name"], expr))
+    return scanned
+
+
+def _pretty_cap(repo):
+    """`const MAX_BNODE_NESTING: usize = N;` used by write_bnode -> N, else None"""
+    text = read(repo, "turtle/src/serializer/_pretty.rs")  # noqa: F821
+    s = _sanitize(text, "turtle/src/serializer/_pretty.rs")
+    m = re.search(r"\bconst\s+MAX_BNODE_NESTING\s*:\s*usize\s*=\s*(\d[\d_]*)\s*;", s)
+    if not m:
+        return None
+    if not re.search(r"self\s*\.\s*nesting\s*>=\s*MAX_BNODE_NESTING", s):
+        return None
+    return int(m.group(1).replace("_", ""))
+
+
 def extract_sites(repo):
     rows = []      # (lean name, class)
     detail = {}
     per_file = {}
+    scanned = _scan_iterators(repo, set(FILES))
+    cap = _pretty_cap(repo)
     for rel in FILES:
         text = read(repo, rel)  # noqa: F821
         s, fns = _functions(rel, text)
@@ -399,8 +495,11 @@ def extract_sites(repo):
            "/-- (function of /repo, class), in the order of tools/extractors/c16.py -/\n",
            "def sites : List (String × SiteClass) :=\n  [" +
            ",\n   ".join('("%s", .%s)' % r for r in rows) + "]\n\n",
+           "/-- `MAX_BNODE_NESTING` of turtle/src/serializer/_pretty.rs (the prettifier labels a blank node\n"
+           "instead of nesting its `[ ... ]` deeper than this); `none`: the nesting is not capped -/\n",
+           "def prettyBnodeNestingCap : Option Nat := %s\n\n" % ("none" if cap is None else "some %d" % cap),
            "end SophiaModel.Gen.RecursionSites\n"]
-    return "".join(out), {"sites": detail}
+    return "".join(out), {"sites": detail, "iterator_methods_scanned": scanned, "pretty_bnode_nesting_cap": cap}
 
 
 def _same_fn(f, callee_name, fns):
